@@ -28,3 +28,56 @@ package object
 //@   property C45
 //@   callee (object.Handlers).{Get,Head,Delete,GetRange}, (object.Storage).*, (object.ClientConstructor).*, object.forward*, (*object.Server).forwardSearchRequest, (*object.Server).ProcessSearch, (*object.Server).processSearchRequest, (*object.Server).searchOnRemoteNode, (*put.Streamer).*, (*object.putStream).*, (*engine.StorageEngine).*, (*meta.Meta).*
 //@   requires [node_not_in_maintenance] nodeNotInMaintenance()
+
+// ---- C29: every client handler verifies the request signatures, validates its tokens
+// (meta header) and applies the access checks before any call into E.
+// sigOK(req) is established only by the request-signature verifiers returning nil for that
+// same request value; metaHeaderChecked() only by handleRequestMetaHeader returning nil;
+// the ACL facts only by the ACLChecker methods (pkg/services/object/acl/v2 contracts);
+// aclSkipAllowed() only by PutRequestToInfo answering ErrSkipRequest (a Put relayed inside
+// the container, which the extractor decides).
+
+//@ ghost pred sigOK(req any) bool
+//@ ghost pred metaHeaderChecked() bool
+//@ ghost pred aclSkipAllowed() bool
+
+//@ dep crypto.VerifyRequestSignaturesN3
+//@   property C29
+//@   pureeffect
+//@   defines err == nil ==> sigOK(req)
+
+//@ func (*Server).handleRequestMetaHeader
+//@   property C29
+//@   defines err == nil ==> metaHeaderChecked()
+
+//@ iface (ACLInfoExtractor).PutRequestToInfo
+//@   property C29
+//@   pureeffect
+//@   defines errIs(err, v2.ErrSkipRequest) ==> aclSkipAllowed()
+
+//@ callrule checks_before_effects in implements:object.ObjectServiceServer, (*Server).HeadBuffered, (*Server).SearchV2Buffered, !(*Server).Replicate, !(*Server).Put
+//@   property C29
+//@   callee (object.Handlers).{Get,Head,Delete,GetRange}, (object.Storage).*, (object.ClientConstructor).*, object.forward*, (*object.Server).forwardSearchRequest, (*object.Server).ProcessSearch, (*object.Server).processSearchRequest, (*object.Server).searchOnRemoteNode, (*put.Streamer).*, (*object.putStream).*, (*engine.StorageEngine).*, (*meta.Meta).*
+//@   requires [signatures_verified] sigOK(iface(reqparam))
+//@   requires [tokens_validated] metaHeaderChecked()
+//@   requires [basic_acl_passed] basicACLPassed()
+//@   requires [extended_acl_evaluated] extendedACLPassed()
+
+// Put: the request is the message just received from the stream (local `req`); chunks of
+// an accepted stream are forwarded after the signature check only (the access decision
+// was taken on the init message of the same stream).
+//@ callrule put_init_checks_before_effects in (*Server).Put
+//@   property C29
+//@   callee (*object.putStream).forwardInitRequest
+//@   requires [signatures_verified] sigOK(iface(req))
+//@   requires [tokens_validated] metaHeaderChecked()
+//@   requires [access_checked_or_relay] (basicACLPassed() && stickyBitPassed() && extendedACLPassed()) || aclSkipAllowed()
+//@ callrule put_chunk_checks_before_effects in (*Server).Put
+//@   property C29
+//@   callee (*object.putStream).forwardChunkRequest
+//@   requires [signatures_verified] sigOK(iface(req))
+
+//@ dep crypto.VerifyRequestSignaturesWithContext
+//@   property C29
+//@   pureeffect
+//@   defines err == nil ==> sigOK(req)
